@@ -607,30 +607,7 @@ func runC07(w *World, r *Report) {
 
 	// ---- branch handler index
 	r.Rule("C07.branch-handler-index", "calculateBranch passes the loop index over writeToBranches (the same index as the branch's input copy) to the pre-branch handler", 1)
-	cb := w.Fn("compose", "runner.calculateBranch")
-	h := w.Fn("compose", "preBranchHandlerManager.handle")
-	wtb := w.Field("compose", "chanCall", "writeToBranches")
-	for _, c := range callsTo(cb, h) {
-		a := c.Common().Args
-		idx := a[2]
-		// the value argument is input[idx]
-		sameIdx := false
-		if u, ok := a[3].(*ssa.UnOp); ok {
-			if ia, ok := u.X.(*ssa.IndexAddr); ok && ia.Index == idx {
-				sameIdx = true
-			}
-		}
-		// idx is the index of a range over startChan.writeToBranches: it also indexes that slice
-		rangeIdx := false
-		if refs := idx.Referrers(); refs != nil {
-			for _, ref := range *refs {
-				if ia, ok := ref.(*ssa.IndexAddr); ok && isLoadOfField(ia.X, wtb) {
-					rangeIdx = true
-				}
-			}
-		}
-		r.Check(sameIdx && rangeIdx, "C07.branch-handler-index", "calculateBranch -> preBranchHandlerManager.handle index", c.Pos(), "handler list, input copy and branch are selected by the same loop index", "the pre-branch handler list is selected by something other than the branch's position (e.g. a mutable idx field shared between graphs)")
-	}
+	branchSlotIsLoopIndex(w, r, "C07.branch-handler-index")
 	_ = must
 }
 
@@ -653,4 +630,33 @@ func loadedFieldOfInstr(in ssa.Instruction) (*types.Var, ssa.Value) {
 		return nil, nil
 	}
 	return loadedField(v)
+}
+
+// branchSlotIsLoopIndex: shared by C07.branch-handler-index and C01.branch-slot (a branch reads ITS copy of the node's
+// output and goes through ITS handler list: both are selected by the branch's position among the node's branches).
+func branchSlotIsLoopIndex(w *World, r *Report, rule string) {
+	cb := w.Fn("compose", "runner.calculateBranch")
+	h := w.Fn("compose", "preBranchHandlerManager.handle")
+	wtb := w.Field("compose", "chanCall", "writeToBranches")
+	for _, c := range callsTo(cb, h) {
+		a := c.Common().Args
+		idx := a[2]
+		// the value argument is input[idx]
+		sameIdx := false
+		if u, ok := a[3].(*ssa.UnOp); ok {
+			if ia, ok := u.X.(*ssa.IndexAddr); ok && ia.Index == idx {
+				sameIdx = true
+			}
+		}
+		// idx is the index of a range over startChan.writeToBranches: it also indexes that slice
+		rangeIdx := false
+		if refs := idx.Referrers(); refs != nil {
+			for _, ref := range *refs {
+				if ia, ok := ref.(*ssa.IndexAddr); ok && isLoadOfField(ia.X, wtb) {
+					rangeIdx = true
+				}
+			}
+		}
+		r.Check(sameIdx && rangeIdx, rule, "calculateBranch -> preBranchHandlerManager.handle index", c.Pos(), "handler list, input copy and branch are selected by the same loop index", "the pre-branch handler list is selected by something other than the branch's position (e.g. a mutable idx field shared between graphs)")
+	}
 }
